@@ -54,24 +54,24 @@ mod set_reach__init;
 mod cp__pari;
 mod lex_lat__pari;
 mod lat_multi_improve__par;
-mod count_paths__topar;
-mod count_paths__init;
-mod neg_basic__run;
-mod neg_basic__runpar;
-mod agg_minmaxsum__ser;
-mod agg_lattice__ser;
-mod neg_rec_after__ser;
-mod agg_empty__ser;
-mod disj__to;
-mod disj__redecl;
-mod disj__exp;
-mod pat_args__par;
-mod rep_expr__exppar;
-mod neg_in_disj__pari;
-mod mac_basic__run;
-mod mac_basic__runpar;
-mod mac_capture__exppar;
-mod mac_disj__pari;
+mod count_paths__par;
+mod count_paths__src1;
+mod neg_basic__pari;
+mod neg_basic__src2;
+mod neg_basic__permpar;
+mod agg_depth__pari;
+mod agg_user__ser;
+mod agg_bound_mix__ser;
+mod disj__ser;
+mod disj__src0;
+mod disj__perm2;
+mod disj_nested__exp;
+mod rep_expr__par;
+mod multi_head_disj__exppar;
+mod mac_basic__pari;
+mod mac_basic__src2;
+mod mac_capture__par;
+mod mac_nested__exppar;
 
 fn lookup(name: &str) -> fn() -> Box<dyn Driven> {
    match name {
@@ -121,24 +121,24 @@ fn lookup(name: &str) -> fn() -> Box<dyn Driven> {
       "cp__pari" => cp__pari::make,
       "lex_lat__pari" => lex_lat__pari::make,
       "lat_multi_improve__par" => lat_multi_improve__par::make,
-      "count_paths__topar" => count_paths__topar::make,
-      "count_paths__init" => count_paths__init::make,
-      "neg_basic__run" => neg_basic__run::make,
-      "neg_basic__runpar" => neg_basic__runpar::make,
-      "agg_minmaxsum__ser" => agg_minmaxsum__ser::make,
-      "agg_lattice__ser" => agg_lattice__ser::make,
-      "neg_rec_after__ser" => neg_rec_after__ser::make,
-      "agg_empty__ser" => agg_empty__ser::make,
-      "disj__to" => disj__to::make,
-      "disj__redecl" => disj__redecl::make,
-      "disj__exp" => disj__exp::make,
-      "pat_args__par" => pat_args__par::make,
-      "rep_expr__exppar" => rep_expr__exppar::make,
-      "neg_in_disj__pari" => neg_in_disj__pari::make,
-      "mac_basic__run" => mac_basic__run::make,
-      "mac_basic__runpar" => mac_basic__runpar::make,
-      "mac_capture__exppar" => mac_capture__exppar::make,
-      "mac_disj__pari" => mac_disj__pari::make,
+      "count_paths__par" => count_paths__par::make,
+      "count_paths__src1" => count_paths__src1::make,
+      "neg_basic__pari" => neg_basic__pari::make,
+      "neg_basic__src2" => neg_basic__src2::make,
+      "neg_basic__permpar" => neg_basic__permpar::make,
+      "agg_depth__pari" => agg_depth__pari::make,
+      "agg_user__ser" => agg_user__ser::make,
+      "agg_bound_mix__ser" => agg_bound_mix__ser::make,
+      "disj__ser" => disj__ser::make,
+      "disj__src0" => disj__src0::make,
+      "disj__perm2" => disj__perm2::make,
+      "disj_nested__exp" => disj_nested__exp::make,
+      "rep_expr__par" => rep_expr__par::make,
+      "multi_head_disj__exppar" => multi_head_disj__exppar::make,
+      "mac_basic__pari" => mac_basic__pari::make,
+      "mac_basic__src2" => mac_basic__src2::make,
+      "mac_capture__par" => mac_capture__par::make,
+      "mac_nested__exppar" => mac_nested__exppar::make,
       _ => panic!("no such program variant in this shard: {}", name),
    }
 }
